@@ -141,6 +141,7 @@ Lemma create_then_session s parts pr m a :
                      end
            end in
   in_store s idx /\ VolInv (fst y) /\ (forall k, k <> idx -> lives_of (fst y) k = lives_of s k) /\
+  (forall k, in_store (fst y) k <-> in_store s k) /\
   ((snd y = Err OSError_ENOSPC /\ (lives_of (fst y) idx = lives_of s idx \/
                                     exists e, lives_of (fst y) idx = lives_of s idx ++ [e] /\ is_dir e = false)) \/
    (snd y = Ok tt /\ exists e, lives_of (fst y) idx = lives_of s idx ++ [e] /\ e_name e = leaf parts /\
@@ -160,8 +161,9 @@ Proof.
     assert (Ii1 : in_store (fst x) idx) by (apply Is1; exact Ii).
     assert (EL : lives_of (fst x) idx = lives_of s idx ++ e :: []) by exact Ll.
     destruct (file_session_spec upper V PW (fst x) idx e m a (lives_of s idx) [] I1 Ii1 EL eq_refl)
-      as (I2 & (sz & c & Ll2 & Sz) & Lo2 & _).
+      as (I2 & (sz & c & Ll2 & Sz) & Lo2 & Is2).
     split; [exact I2|]. split; [intros k Hk; rewrite (Lo2 k Hk); apply Lo1, Hk|].
+    split; [intros k; rewrite (Is2 k); apply Is1|].
     destruct (snd (file_session upper V (fst x) idx e m a)) as [[]|err] eqn:Es.
     + right. split; [reflexivity|]. eexists. split; [exact Ll2|]. split; [exact En|]. split; [reflexivity|].
       cbn [set_val e_size]. apply Sz. reflexivity.
@@ -170,7 +172,7 @@ Proof.
         destruct (session_core_ok (fst x) idx e m a I1) as (r' & Er'); [rewrite EL; apply in_or_app; right; left; reflexivity|reflexivity|].
         rewrite Er' in Es. destruct r' as [[st3 ok] wb]. cbn [snd] in Es. destruct ok; inversion Es. reflexivity. }
       subst err. split; [reflexivity|]. right. eexists. split; [exact Ll2|reflexivity].
-  - cbn [fst snd]. split; [exact I1|]. split; [exact Lo1|]. left. split; [reflexivity|]. left. exact Ll.
+  - cbn [fst snd]. split; [exact I1|]. split; [exact Lo1|]. split; [exact Is1|]. left. split; [reflexivity|]. left. exact Ll.
 Qed.
 (* the branch of an existing file *)
 Lemma existing_session s parts idx e m a :
@@ -240,7 +242,7 @@ Proof.
     all: lazymatch goal with
          | Rp : Model.resolve upper _ (parent _) = Ok ?pr |- context [new_size ?mm _ 0] =>
            assert (Dp : r_isdir pr = true) by (cbn; assumption || reflexivity);
-           destruct (create_then_session s parts pr mm a I G R Rp Dp) as (Ii & _ & Lo & Cases);
+           destruct (create_then_session s parts pr mm a I G R Rp Dp) as (Ii & _ & Lo & _ & Cases);
            cbn zeta in Lo, Cases; cbn [r_index] in *;
            destruct Cases as [[Eo _]|(Eo & e' & Ll & En & Hd & Sz)]; [exfalso; apply NE; exact Eo|];
            rewrite Eo; f_equal; rewrite !abs_tree_A; symmetry;
